@@ -896,7 +896,8 @@ class definition(slots_getstate_setstate):
                 new_words.append(word)
                 continue
             substitution_proxy = variable_substitution_proxy(word)
-            for fragment in substitution_proxy.fragments:
+            fragments = substitution_proxy.fragments
+            for i_fragment, fragment in enumerate(fragments):
                 if not fragment.is_variable:
                     fragment.result = tokenizer.word(
                         value=fragment.value, quote_token='"'
@@ -918,6 +919,19 @@ class definition(slots_getstate_setstate):
                 if variable_words is None:
                     if diff_mode:
                         env_var = "$" + fragment.value
+                        # keep the parentheses where the bare form reads differently:
+                        # a dotted name, or identifier characters following
+                        following = ""
+                        if (
+                            i_fragment + 1 < len(fragments)
+                            and not fragments[i_fragment + 1].is_variable
+                        ):
+                            following = fragments[i_fragment + 1].value[:1]
+                        if "." in fragment.value or (
+                            following != "."
+                            and following in standard_identifier_continuation_characters
+                        ):
+                            env_var = "$(" + fragment.value + ")"
                     else:
                         env_var = os.environ.get(fragment.value, None)
                     if env_var is not None:
